@@ -14,7 +14,7 @@ from vf.props import c01
 
 ID = 'C04'
 LEVEL = 'exploration'
-DECIDING = ['c04:completions']
+DECIDING = ['c04:completions', 'c04c:receivers_checked']
 RULE = ('cases = corpus texts (as C01: whole/window, 0-3 small edits, token soups) x N cursor '
         'positions biased to identifier ends, dots, brackets and import statements x {fuzzy, '
         'non-fuzzy}; every returned list is checked against the algebra of the statement '
